@@ -67,7 +67,7 @@ use std::{
 };
 
 const EX: ExchangeId = ExchangeId::BinanceSpot;
-const PAIRS_G: [(&str, &str); 3] = [("btc", "usdt"), ("eth", "usdt"), ("sol", "usdt")];
+const PAIRS_G: [(&str, &str); 5] = [("btc", "usdt"), ("eth", "usdt"), ("sol", "usdt"), ("ada", "usdt"), ("dot", "usdt")];
 
 // ------------------------------------------------------------------------------------------------
 // H1: thread-local virtual wall clock
@@ -171,6 +171,8 @@ pub struct RecData {
     pub last: Option<(u64, Decimal)>,
     pub acted: Vec<u64>,
     pub fills: Vec<FillRec>,
+    /// orders the exchange refused because it does not know the instrument (client order ids)
+    pub refused_unknown: Vec<String>,
 }
 
 impl InstrumentDataState for RecData {
@@ -204,6 +206,14 @@ impl<'a> Processor<&'a AccountEvent> for RecData {
                 order_id: t.order_id.0.to_string(),
             });
         }
+        if let AccountEventKind::OrderSnapshot(o) = &e.kind {
+            if let barter_execution::order::state::OrderState::Inactive(barter_execution::order::state::InactiveOrderState::OpenFailed(
+                barter_execution::error::OrderError::Rejected(barter_execution::error::ApiError::InstrumentInvalid(..)),
+            )) = &o.0.state
+            {
+                self.refused_unknown.push(o.0.key.cid.0.to_string());
+            }
+        }
     }
 }
 
@@ -225,6 +235,7 @@ pub struct RecOut {
     pub global_seen: Vec<u64>,
     pub clock_breach: Option<(i64, String)>,
     pub global_marker: u64,
+    pub refused_unknown: Vec<String>,
     pub inst_seen: Vec<Vec<u64>>,
     pub fills: Vec<Vec<FillRec>>,
     pub positions: Vec<Option<(bool, Decimal, Decimal)>>,
@@ -258,6 +269,7 @@ impl AlgoStrategy for BtStrategy {
             s.global_seen = state.global.seen.clone();
             s.clock_breach = state.global.breach.clone();
             s.global_marker = state.global.marker;
+            s.refused_unknown = state.instruments.0.values().flat_map(|i| i.data.refused_unknown.clone()).collect();
             s.inst_seen = state.instruments.0.values().map(|i| i.data.seen.clone()).collect();
             s.fills = state.instruments.0.values().map(|i| i.data.fills.clone()).collect();
             s.positions = state
@@ -405,6 +417,9 @@ pub struct ScenarioG {
     /// first one - a consolidated / relayed recording (0 = off)
     #[serde(default)]
     pub relabel: usize,
+    /// which of the five pairs the instrument list starts at
+    #[serde(default)]
+    pub pair_rot: usize,
 }
 
 pub struct SimG;
@@ -425,8 +440,9 @@ struct BtResult {
 
 const EX2: ExchangeId = ExchangeId::Kraken;
 
-fn instruments_g(n: usize, second_venue: bool) -> IndexedInstruments {
-    let mut v = PAIRS_G.iter().take(n.clamp(1, 3)).map(|(b, q)| spot(EX, b, q)).collect::<Vec<_>>();
+fn instruments_g(n: usize, second_venue: bool, rot: usize) -> IndexedInstruments {
+    // (different runs of one process trade different, overlapping instrument sets)
+    let mut v = PAIRS_G.iter().cycle().skip(rot % PAIRS_G.len()).take(n.clamp(1, 3)).map(|(b, q)| spot(EX, b, q)).collect::<Vec<_>>();
     if second_venue {
         v.push(spot(EX2, "xrp", "usdt"));
     }
@@ -492,7 +508,7 @@ where
     M: BacktestMarketData<Kind = DataKind> + Send + Sync + 'static,
     F: FnOnce(Vec<MarketStreamEvent<InstrumentIndex, DataKind>>, Vec<Vec<u64>>) -> M,
 {
-    let instruments = instruments_g(sc.n_inst, sc.relabel > 0);
+    let instruments = instruments_g(sc.n_inst, sc.relabel > 0, sc.pair_rot);
     let n_inst = sc.n_inst.clamp(1, 3);
     let events: Vec<MarketStreamEvent<InstrumentIndex, DataKind>> = {
         let mut t = 0i64;
@@ -679,6 +695,7 @@ impl Sim for SimG {
             tokio_seed: rng.next_u64(),
             in_memory,
             relabel: if rng.chance(1, 5) { 2 + rng.usize(5) } else { 0 },
+            pair_rot: rng.usize(5),
         }
     }
 
@@ -750,6 +767,9 @@ impl Sim for SimG {
                     }
                 }
                 // the engine started from the configured initial state (user data included)
+                if !r.rec.refused_unknown.is_empty() {
+                    fail!('run, "G3_isolation", j, "backtest {j} of {n_bt}: its own mock exchange refused order(s) {:?} as for an unknown instrument although every instrument of this backtest is configured on it", r.rec.refused_unknown);
+                }
                 if r.rec.calls > 0 && r.rec.global_marker != 7 {
                     fail!('run, "G3_isolation", j, "backtest {j} of {n_bt}: its engine's global data carries marker {} instead of the configured 7: it did not start from the shared initial engine state", r.rec.global_marker);
                 }
